@@ -31,6 +31,8 @@ from .. import common as C
 from . import _an
 
 PROP = "C14"
+# obligations of the properties this one is downstream of are obligations of this check too (vk.runner.collect_obligations)
+UPSTREAM = ["C05"]
 GEN_REGIONS = ["CoreKernels", "Attrs", "ConfigGlue", "ResultQueries", "KernelHeap"]
 THEOREMS = {
     # the lazy attribute cache PROTOCOL of SpectrumResult.__getattr__ as translated each run (region ResultQueries) is the model lazyGet/lazyRun:
